@@ -13,7 +13,7 @@ REASONS = ['transport close', 'transport error', 'ping timeout']
 DEFAULT_WEIGHTS = {
     'open': 2, 'connect': 6, 'client_disconnect': 2, 'event': 8, 'ack': 3, 'emit': 4, 'emit_cb': 3,
     'call': 0, 'api_disconnect': 2, 'enter': 2, 'leave': 1, 'close': 1, 'rooms': 2, 'session': 0,
-    'lost': 2, 'settle': 0, 'hostile': 0, 'partial_binary': 1,
+    'lost': 2, 'settle': 0, 'hostile': 0, 'partial_binary': 1, 'binary_across_end': 0,
 }
 
 
@@ -383,6 +383,54 @@ class Scenario:
         keep = rng.randint(1, len(frames) - 1)
         return self._frames(t, frames[:keep])
 
+    def g_binary_across_end(self):
+        """a binary event (header + attachments) addressed to namespace B of a transport, and BETWEEN the header and the
+        remaining attachments the server ends a session with disconnect(): another namespace of the same transport
+        (mostly), all its other namespaces, a session of another transport, or B itself; then the attachments arrive"""
+        rng = self.rng
+        multi = sorted(set(t for (t, _n) in self.conn if sum(1 for k in self.conn if k[0] == t) >= 2))
+        if not multi:
+            # work towards a transport connected to two namespaces
+            ts = sorted(set(t for (t, _n) in self.conn if t in self.open))
+            if not ts:
+                return None
+            t = rng.choice(ts)
+            free = [n for n in NS_POOL[:3] if (t, n) not in self.conn]
+            return self._frames(t, pycodec.encode(0, rng.choice(free), None, None)) if free else None
+        t = rng.choice(multi)
+        nss = sorted(n for (t2, n) in self.conn if t2 == t)
+        b = rng.choice(nss)
+        others = [n for n in nss if n != b]
+        elsewhere = sorted(k for k in self.conn if k[0] != t)
+        variant = weighted(rng, {k: w for k, w in (('other_namespace', 7), ('all_other_namespaces', 1),
+                                                   ('same_namespace', 1), ('other_transport', 1))
+                                 if k != 'other_transport' or elsewhere})
+        if variant == 'other_namespace':
+            ends = [(t, rng.choice(others))]
+        elif variant == 'all_other_namespaces':
+            ends = [(t, n) for n in others]
+        elif variant == 'same_namespace':
+            ends = [(t, b)]
+        else:
+            ends = [rng.choice(elsewhere)]
+        ev = rng.choice(EVENTS[:3])
+        args = [G.gen_bytes(rng)] + [rng.choice([{'k': G.gen_bytes(rng)}, [G.gen_bytes(rng), 1], 'x', 7, G.gen_bytes(rng)])
+                                     for _ in range(rng.randint(0, 2))]
+        rng.shuffle(args)
+        frames = pycodec.encode(2, b, rng.choice([None, None, 0, 3, rng.randint(0, 10**6)]), [ev] + args)
+        keep = rng.randint(1, len(frames) - 1)
+
+        def fr(f):
+            return {'op': 'frame', 't': t, 'text': f} if isinstance(f, str) else {'op': 'frameval', 't': t, 'v': f}
+        between = [{'op': 'disconnect', 'sid': self.conn[k], 'ns': k[1], '_across': variant} for k in ends]
+        if rng.random() < 0.3:
+            # other server-side activity while the packet is incomplete: a broadcast on one of the namespaces
+            between.insert(rng.randint(0, len(between)), {'op': 'emit', 'ev': rng.choice(EVENTS), 'data': gen_ret(rng),
+                                                          'ns': rng.choice(nss), 'to': None, 'skip': [], 'cb': None})
+        ops = [fr(f) for f in frames[:keep]] + between + [fr(f) for f in frames[keep:]]
+        self.pending_frames = ops[1:] + self.pending_frames
+        return ops[0]
+
     def g_ack(self):
         rng = self.rng
         r = rng.random()
@@ -525,8 +573,39 @@ class Scenario:
         (t, ns), sid = rng.choice(list(self.conn.items()))
         return self._session_op(sid, ns)
 
+    def _session_during(self, sid, ns):
+        """a session() block during which save_session() is called (by a helper the block calls, or by another
+        handler): for the SAME session, for another namespace of the same client, for another client, or with a
+        pair that names no live session (the helper's call fails inside the block); the block modifies its dict
+        before and after that call and exits.  Followed by reads of both sessions."""
+        rng = self.rng
+        t = self.home.get(sid, (None, None))[0]
+        cands = {'same': [(sid, ns)]}
+        cands['other_ns'] = [(s2, n2) for (t2, n2), s2 in self.conn.items() if t2 == t and n2 != ns]
+        cands['other_client'] = [(s2, n2) for (t2, n2), s2 in self.conn.items() if t2 != t]
+        same_ns = [c for c in cands['other_client'] if c[1] == ns]
+        if same_ns and rng.random() < 0.7:
+            cands['other_client'] = same_ns
+        cands['no_such_session'] = [(sid, n2) for n2 in NS_POOL[:3] if n2 != ns and (t, n2) not in self.conn]
+        variant = weighted(rng, {k: w for k, w in (('same', 5), ('other_ns', 2), ('other_client', 2),
+                                                   ('no_such_session', 1)) if cands[k]})
+        tsid, tns = rng.choice(cands[variant])
+        op = {'op': 'session_block_save', 'sid': sid, 'ns': ns, 'k': rng.choice(['u', 'v', 'n']),
+              'v': G.gen_value(rng, 1, 0.0), '_variant': variant,
+              'save': {'sid': tsid, 'ns': tns, 'v': {rng.choice(['u', 'v', 'w', 'z']): G.gen_value(rng, 1, 0.0)}}}
+        if rng.random() < 0.5:
+            op['k0'], op['v0'] = rng.choice(['u', 'p']), G.gen_value(rng, 1, 0.0)     # a modification before the call
+        follow = [{'op': 'get_session', 'sid': sid, 'ns': ns}]
+        if variant in ('other_ns', 'other_client'):
+            follow.append({'op': 'get_session', 'sid': tsid, 'ns': tns})
+        self.pending_frames = follow + self.pending_frames
+        return op
+
     def _session_op(self, sid, ns):
         rng = self.rng
+        p_during = self.profile.get('session_during_p', 0.0)       # opt-in per profile (C16)
+        if p_during and rng.random() < p_during:
+            return self._session_during(sid, ns)
         r = rng.random()
         if r < 0.35:
             return {'op': 'save_session', 'sid': sid, 'ns': ns,
